@@ -376,3 +376,68 @@ func ruleSpecDescriptorAccessor(c *Ctx, r *R) {
 		}
 	}
 }
+
+func init() {
+	register(&Rule{ID: "SENTINEL-inband", Props: []string{"C09", "C02", "C07"}, Min: 1,
+		Doc: "G (contradiction rule): a function of package otto that returns a code unit / code point (rune, uint16) and uses a constant as its 'no such element' answer must choose a constant outside the values its other returns can produce. U+FFFD (utf8.RuneError) is a valid character of a script string: when the element at the index is U+FFFD the callers' `== utf8.RuneError` test takes it for 'out of range', so charAt answers \"\", the indexed property disappears, and enumerate and [[GetOwnProperty]] of a String object disagree (a nil property dereferenced in Object.isFrozen)",
+		Run: ruleSentinelInband})
+}
+
+func ruleSentinelInband(c *Ctx, r *R) {
+	n := 0
+	for _, fn := range c.AllSrcFuncs("") {
+		if fn.Parent() != nil || fn.Signature.Results().Len() != 1 {
+			continue
+		}
+		bt, ok := fn.Signature.Results().At(0).Type().Underlying().(*types.Basic)
+		if !ok || (bt.Kind() != types.Int32 && bt.Kind() != types.Uint16) {
+			continue
+		}
+		var consts []int64
+		var constSite ssa.Instruction
+		dynamic := false
+		for _, b := range fn.Blocks {
+			for _, ins := range b.Instrs {
+				ret, ok := ins.(*ssa.Return)
+				if !ok || len(ret.Results) != 1 {
+					continue
+				}
+				var leaves func(v ssa.Value, d int)
+				leaves = func(v ssa.Value, d int) {
+					if phi, ok := v.(*ssa.Phi); ok && d < 4 {
+						for _, e := range phi.Edges {
+							leaves(e, d+1)
+						}
+						return
+					}
+					if k, ok := constInt(v); ok {
+						consts = append(consts, k)
+						constSite = ret
+						return
+					}
+					dynamic = true
+				}
+				leaves(ret.Results[0], 0)
+			}
+		}
+		if !dynamic || len(consts) == 0 {
+			continue
+		}
+		n++
+		key := ssaFuncName(fn)
+		bad := false
+		for _, k := range consts {
+			if k == 0xFFFD {
+				bad = true
+			}
+		}
+		if bad {
+			r.bad(key, c.Pos(instrPos(constSite)), fmt.Sprintf("%s answers 'no such element' with U+FFFD (utf8.RuneError), which is also a value its other return can produce: a string containing U+FFFD is treated as if that position were out of range", ssaFuncName(fn)))
+		} else {
+			r.ok(key, c.Pos(fn.Pos()), fmt.Sprintf("constant answers %v are not U+FFFD", consts))
+		}
+	}
+	if n == 0 {
+		r.ok("census", "-", "no function mixes a constant answer with computed code units")
+	}
+}
